@@ -207,7 +207,18 @@ func splice[T any](s []T, i int, vs []T) []T {
 	return append(r, s[i:]...)
 }
 
+// Step = Do (the operation on the real object and the reference, return values compared)
+// followed by Content (the cheap observer comparison that runs on every transition).
 func (b *listBox[T]) Step(o Op) *Viol {
+	if v := b.Do(o); v != nil {
+		return v
+	}
+	return b.content()
+}
+
+func (b *listBox[T]) Content() *Viol { return b.content() }
+
+func (b *listBox[T]) Do(o Op) *Viol {
 	n := len(b.ref)
 	in := func(i int) bool { return i >= 0 && i < n }
 	switch o.N {
@@ -278,7 +289,7 @@ func (b *listBox[T]) Step(o Op) *Viol {
 	default:
 		panic("list op " + o.N)
 	}
-	return b.content()
+	return nil
 }
 
 func (b *listBox[T]) content() *Viol {
